@@ -1,5 +1,5 @@
 (** H3Headers — proofs: the model of parseHeaders / parseTrailers accepts only what the
-    reference predicates of Spec.v allow (up to the two explicit weakenings [WFx]), and what
+    reference predicates of Spec.v allow, and what
     it returns is the obvious function of the section. *)
 From Coq Require Import List ZArith Bool String Lia.
 From V Require Import Gen.Params Lib.Hex H3Headers.Model H3Headers.Spec.
